@@ -85,6 +85,11 @@ def gen(seed: int, tier: str) -> dict[str, Any]:
         for j in range(rng.choice([1, 2])):
             ops.append({"t": round(rng.uniform(0.02, 2.5), 6), "op": rng.choice(["wrapped_forged", "wrapped_wrong_key", "notify_forged"]),
                         "id": 200 + j, "off": rng.choice([10 ** 6, 2 ** 40, 10 ** 9]), "flip": rng.randrange(60 * 8, 70 * 8)})
+    if rng.random() < 0.12:
+        # the user sends while the synchronisation request is still unanswered (the transport is up, connect() has not
+        # returned yet): that wrapper carries the unsynchronised timer
+        ops.append({"t": rng.choice([0.001, 0.004, 0.008]), "op": "early_send", "id": 250})
+        ops.append({"t": round(rng.uniform(4.0, 4.0 + horizon), 6), "op": "send", "id": 400})
     if rng.random() < 0.2:
         # the interface is disconnected and connected again (same object); nobody answers the second synchronisation
         tr_ = round(rng.uniform(5.0, 4.0 + horizon), 6)
@@ -204,6 +209,16 @@ def run(plan: dict[str, Any]) -> dict[str, Any]:
         t0 = loop.time()
 
         def early(op):
+            if op["op"] == "early_send":
+                async def send_early():
+                    raw_ = W.cemi_ldata(W.L_DATA_REQ, 0, W.ga(1, 1, 1), tpci_apci=W.gv_write(op["id"].to_bytes(2, "big")))
+                    try:
+                        await routing.send_cemi(CEMIFrame.from_knx(raw_))
+                        R.extra_faults["send_before_synchronisation_finished"] += 1
+                    except Exception:  # pylint: disable=broad-except
+                        R.probes["early_send_refused"] += 1
+                info.setdefault("early_tasks", []).append(loop.create_task(send_early()))
+                return
             # unauthentic frames while the synchronisation is pending
             ind_ = W.routing_indication(W.cemi_ldata(W.L_DATA_IND, 0x1107, W.ga(1, 1, 2),
                                                      tpci_apci=W.gv_write(op["id"].to_bytes(2, "big"))))
@@ -400,7 +415,9 @@ def run(plan: dict[str, Any]) -> dict[str, Any]:
     wr = [(t, v) for (t, v, k) in outs if k == "wrapper"]
     for (t1, v1), (t2, v2) in zip(wr, wr[1:]):
         if v2 < v1:
-            R.violate("C30.timer-monotone", "outgoing-timer-decreased", f"{v1} at {t1:.3f} then {v2} at {t2:.3f}")
+            early_first = t1 - t_start <= info.get("connect_t", 0.0) + 1e-9
+            R.violate("C30.timer-monotone", "outgoing-timer-decreased" + (":first-sent-before-synchronisation-finished" if early_first else ""),
+                      f"{v1} at {t1:.3f} then {v2} at {t2:.3f}")
     post = [(t, v) for (t, v, k) in outs if t - t_start > info.get("connect_t", 0.0) + 1e-9]
     pre = [(t, v) for (t, v, k) in outs if t - t_start <= info.get("connect_t", 0.0) + 1e-9]
     if pre:
